@@ -159,20 +159,31 @@ def select(env, cfg, prog, what, ident):
     return 0
 
 
-def run(env, cfg, what, ident, build, poison, seed=b"", timeout=None):
+def run(env, cfg, what, ident, build, poison, seed=b"", timeout=None, prev=None):
     """Build and run a program with field fid / curve cid active; returns (result, meta) with the selection call
-    stripped."""
+    stripped. prev: identifier of ANOTHER field to install right before (tables and constants derived for the
+    previous polynomial must not survive the switch); the next case then gets a fresh runner process."""
     p = Prog(poison=poison, seed=seed)
-    skip = select(env, cfg, p, what, ident)
+    if prev is not None and what == "fb" and prev != ident:
+        p.call("fb_param_set", prev)
+        p.call("fb_param_set", ident)
+        skip = 2
+    else:
+        prev = None
+        skip = select(env, cfg, p, what, ident)
     meta = build(p)
     try:
         res = env.runner(cfg).run(p, timeout=timeout)
     except Exception:
         invalidate(env, cfg)
         raise
+    finally:
+        if prev is not None:
+            env.runner(cfg).ncases = env.runner(cfg).recycle
+            invalidate(env, cfg)
     if res.failed_new:
         raise Unsupported()
-    if skip and res.calls[0].errored:
+    if skip and any(c_.errored for c_ in res.calls[:skip]):
         invalidate(env, cfg)
         raise Violation("%s_param_set(%d) failed for a selectable identifier" % (what, ident))
     res.calls = res.calls[skip:]
